@@ -27,6 +27,9 @@ pub enum Op {
     Restart { slot: usize, from_primary: bool },
     /// dst := T::builder().with_..(..)...build()   (C11 only)
     Build { dst: usize, args: Vec<Hex> },
+    /// dst := !a / a & b / a | b / a ^ b, if the generated type implements the operator at all
+    /// (C11 only; a no-op on a tree that does not)
+    Operator { dst: usize, a: usize, b: usize, op: u8 },
 }
 
 impl Op {
@@ -64,6 +67,12 @@ impl Op {
                 let a: Vec<String> = args.iter().map(|h| format!("{:#x}", h.0)).collect();
                 format!("s{dst} = T::builder()..({})..build()", a.join(", "))
             }
+            Op::Operator { dst, a, b, op } => match *op {
+                OP_NOT => format!("s{dst} = !s{a}"),
+                OP_AND => format!("s{dst} = s{a} & s{b}"),
+                OP_OR => format!("s{dst} = s{a} | s{b}"),
+                _ => format!("s{dst} = s{a} ^ s{b}"),
+            },
         }
     }
 }
@@ -198,8 +207,8 @@ pub fn gen_history(rng: &mut Rng, l: &Layout, maxlen: usize, twin: bool, has_bui
     let mut n = 0;
     while n < len {
         n += 1;
-        // weights: Set, With(same slot), With(fork), Copy, Read, Raw, Restart, Build
-        let mut wts = if twin { [26u64, 20, 8, 4, 5, 3, 22, 12] } else { [34, 26, 10, 5, 15, 10, 0, 0] };
+        // weights: Set, With(same slot), With(fork), Copy, Read, Raw, Restart, Build, Operator
+        let mut wts = if twin { [26u64, 20, 8, 4, 5, 3, 22, 12, 5] } else { [34, 26, 10, 5, 15, 10, 0, 0, 0] };
         if c.w.is_empty() {
             wts[0] = 0;
             wts[1] = 0;
@@ -286,6 +295,10 @@ pub fn gen_history(rng: &mut Rng, l: &Layout, maxlen: usize, twin: bool, has_bui
             }
             5 => ops.push(Op::Raw { slot: rng.usize_below(nslots) }),
             6 => ops.push(Op::Restart { slot: rng.usize_below(nslots), from_primary: rng.chance(30, 100) }),
+            8 => {
+                let a = rng.usize_below(nslots);
+                ops.push(Op::Operator { dst: rng.usize_below(nslots), a, b: rng.usize_below(nslots), op: rng.below(4) as u8 });
+            }
             _ => {
                 let args: Vec<Hex> = bargs.iter().map(|&(f, _)| Hex(gen_value(rng, l, f))).collect();
                 ops.push(Op::Build { dst: rng.usize_below(nslots), args });
